@@ -1,0 +1,10 @@
+//go:build verif
+
+package keeper
+
+// Contracts for the verification framework in /verif (comment-only file; compiled
+// only with -tags verif, where it contributes nothing but these comments).
+
+//@ // ---- declared effects (checked per call instruction by the effect checker; anything not listed is effect-free) ----
+//@ effects Keeper.CreateReferenceId nondet.rand
+//@ effects msgServer.CreateAccount auth.setaccount
